@@ -211,6 +211,11 @@ def c08_total_s(draw, tier):
 JUNK_IDS = ["900", "901", "977", "2000000000"]
 
 
+def c_int(text):
+    """The client id the daemon reads from the start of a line (strtol, base 10)."""
+    return proto.parse_line(text + " x")[0]
+
+
 @st.composite
 def junk_line(draw, live_ids):
     k = draw(st.integers(0, 8))
@@ -228,6 +233,13 @@ def junk_line(draw, live_ids):
             return head + draw(st.sampled_from([" :some text", "", " a b", " :x" * 40])) + draw(st.sampled_from(["\r", "\r\r", " \r", "\r "])) + tail
         fill = draw(st.sampled_from([" ", " ", "\t", " \t"])) * draw(st.sampled_from([600, 4090, 4100, 8190, 8200, 9000, 12300, 16500, 40000]))
         return head + " " + fill + tail
+    if k == 0 and live_ids and draw(st.integers(0, 3)) == 0:
+        # ids are decimal: "010" is client ten and "0x8" is client 0, whatever they would be in octal or hex
+        lid = draw(st.sampled_from(sorted(live_ids)))
+        alias = [t for t in ("0%o" % abs(lid), "0x%x" % abs(lid), "0%d" % abs(lid) if False else "0X%X" % abs(lid))]
+        alias = [t for t in alias if c_int(t) not in live_ids and c_int(t) != -1]
+        if alias:
+            return "%s %s" % (draw(st.sampled_from(alias)), draw(st.sampled_from(["D", "T", "H", "N other.host", "P :+x! a b"])))
     if k == 0:   # unknown id, any non-C command
         c = draw(st.sampled_from("DNdPUunHTEMXx?!"))
         return "%s %s%s" % (jid, c, draw(st.sampled_from(["", " a", " a :b c", " a b c d e"])))
